@@ -391,6 +391,7 @@ int64_t cmi_pool_acquire_inner(struct cmb_resourcepool *rpp,
 {
     /* Waiting since now, also if it takes several rounds at the guard */
     const double waiting_since = cmb_time();
+    uint64_t arrival = 0u;
 
     cmb_assert_release(rpp != NULL);
     cmb_assert_release(req_amount > 0u);
@@ -534,7 +535,8 @@ int64_t cmi_pool_acquire_inner(struct cmb_resourcepool *rpp,
         const int64_t sig = cmi_resourceguard_wait_since(&(rpp->guard),
                                                          is_available,
                                                          NULL,
-                                                         waiting_since);
+                                                         waiting_since,
+                                                         &arrival);
         if ((sig != CMB_PROCESS_SUCCESS)
              && (cmb_resourcepool_held_by_process(rpp, caller) == 0u)) {
             /*
